@@ -433,11 +433,11 @@ def r3(ctx, prog, fit, jac):
 
 
 # --------------------------------------------------------------------------
-def r4_r5(ctx, prog, fit, wrapper):
-    ctx.rule("C04-R4", "the index into the 1-sigma vector is initialised "
+def r4_r5(ctx, prog, fit, wrapper, r4="C04-R4", r5="C04-R5"):
+    ctx.rule(r4, "the index into the 1-sigma vector is initialised "
              "outside the component loop and incremented exactly once "
              "together with each stderr store")
-    ctx.rule("C04-R5", "onesigma == sqrt(diag(inv(M))) with M = J^T J or "
+    ctx.rule(r5, "onesigma == sqrt(diag(inv(M))) with M = J^T J or "
              "J^T inv(C) J and J from the Dfun wrapper with the same errs "
              "(and B when C is not used)")
     # role: function storing `.stderr = <vec>[idx]`
@@ -491,14 +491,14 @@ def r4_r5(ctx, prog, fit, wrapper):
         # flat enumeration idiom: idx is a loop target of a single loop that
         # enumerates all varying parameters
         ok = len(use_loops) == 1
-        ctx.check("C04-R4", fi, "index %s of %s" % (idx.id, norm(store)), ok,
+        ctx.check(r4, fi, "index %s of %s" % (idx.id, norm(store)), ok,
                   "the index restarts in an inner loop", node=store)
     else:
         if not inits:
             raise AnalysisError("C04-R4: no initialisation of %s" % idx.id)
         for ini in inits:
             inside = comp_loop in loops_of(ini)
-            ctx.check("C04-R4", fi, "initialisation `%s` of the 1-sigma "
+            ctx.check(r4, fi, "initialisation `%s` of the 1-sigma "
                       "index" % norm(ini), not inside,
                       "the index is reset for every component (it is "
                       "initialised inside `%s`): every component receives "
@@ -510,7 +510,7 @@ def r4_r5(ctx, prog, fit, wrapper):
         incs = [s for s in body if isinstance(s, (ast.Assign, ast.AugAssign))
                 and as_update(s) == (idx.id, ast.Add, "1")]
         all_incs = [s for s in walk_no_nested(fi.node) if is_inc(s)]
-        ctx.check("C04-R4", fi, "increment paired with " + norm(store),
+        ctx.check(r4, fi, "increment paired with " + norm(store),
                   len(incs) == 1 and len(all_incs) == 1 and store in body,
                   "the index must advance by one exactly where a stderr is "
                   "stored (found %d increments in that block, %d overall)" %
@@ -525,7 +525,7 @@ def r4_r5(ctx, prog, fit, wrapper):
         ih = [n for l in inner for n in g.nodes_for_stmt(l)]
         if ch and ih:
             p = g.path_avoiding(ch[0], ch[0], ih, first_label="T")
-            ctx.check("C04-R4", fi, "every component iteration enumerates "
+            ctx.check(r4, fi, "every component iteration enumerates "
                       "all parameters", p is None,
                       "a path through the component loop skips the parameter "
                       "loop (e.g. an early `continue`): the skipped "
@@ -540,12 +540,12 @@ def r4_r5(ctx, prog, fit, wrapper):
             gn = g.nodes_for_stmt(gd) if isinstance(gd, ast.If) else []
             if sn and gn:
                 q = g.path_avoiding(gn[0], ih[0], sn, first_label="T")
-                ctx.check("C04-R4", fi, "vary guard always reaches the "
+                ctx.check(r4, fi, "vary guard always reaches the "
                           "store", q is None, "a path from the `.vary` "
                           "guard skips the stderr store", node=gd,
                           path=g.describe(q) if q else None)
         guard = pm[store]
-        ctx.check("C04-R4", fi, "stderr store guarded by .vary",
+        ctx.check(r4, fi, "stderr store guarded by .vary",
                   isinstance(guard, ast.If) and vary_param(guard.test)
                   is not None or
                   (isinstance(guard, ast.If) and "vary" in norm(guard.test)),
@@ -556,20 +556,20 @@ def r4_r5(ctx, prog, fit, wrapper):
     defs = [s for s in walk_no_nested(fi.node) if isinstance(s, ast.Assign)
             and any(isinstance(t, ast.Name) and t.id == vec
                     for t in s.targets)]
-    ctx.floor("C04-R5", len(defs), 2, "definitions of the 1-sigma vector")
+    ctx.floor(r5, len(defs), 2, "definitions of the 1-sigma vector")
     for d in defs:
         v = d.value
         txt = norm(v).replace(" ", "")
         if isinstance(v, ast.BinOp) and isinstance(v.left, ast.List):
             # the except-branch placeholder (value domain is C03's concern)
-            ctx.ob("C04-R5", fi, "fallback " + norm(d), True,
+            ctx.ob(r5, fi, "fallback " + norm(d), True,
                    {"note": "failure placeholder"}, d, nontrivial=False)
             continue
         m = _match_call(v, ("numpy.sqrt",), prog, fit)
         inner = m and _match_call(m, ("numpy.diag",), prog, fit)
         inv = inner and _match_call(inner, ("scipy.linalg.inv",
                                             "numpy.linalg.inv"), prog, fit)
-        ctx.check("C04-R5", fi, "1-sigma vector " + norm(d), inv is not None,
+        ctx.check(r5, fi, "1-sigma vector " + norm(d), inv is not None,
                   "expected sqrt(diag(inv(M))), found %s" % txt, node=d)
         if inv is None or not isinstance(inv, ast.Name):
             continue
@@ -583,7 +583,7 @@ def r4_r5(ctx, prog, fit, wrapper):
                 prog.resolve_name(fit, norm(s.value.func)) ==
                 wrapper.qualname]
         if not mdef or not jdef:
-            ctx.unknown_site("C04-R5", fi, norm(d), d)
+            ctx.unknown_site(r5, fi, norm(d), d)
             continue
         J = norm(jdef[0].targets[0])
         mt = norm(mdef[0].value).replace(" ", "")
@@ -622,7 +622,7 @@ def r4_r5(ctx, prog, fit, wrapper):
             return [norm(e)]
         fac = factors(mdef[0].value)
         uses_C = "inv(C)" in fac
-        ctx.check("C04-R5", fi, "Fisher matrix " + norm(mdef[0]),
+        ctx.check(r5, fi, "Fisher matrix " + norm(mdef[0]),
                   fac in (["T(%s)" % J, J], ["T(%s)" % J, "inv(C)", J]),
                   "expected J^T J or J^T inv(C) J with J=%s; found the "
                   "product %s" % (J, fac), node=mdef[0])
@@ -633,7 +633,7 @@ def r4_r5(ctx, prog, fit, wrapper):
             (uses_C or (b is not None and norm(b) == "B"))
         if uses_C:
             ok = ok and b is None
-        ctx.check("C04-R5", fi, "Jacobian for the Fisher matrix " +
+        ctx.check(r5, fi, "Jacobian for the Fisher matrix " +
                   norm(jdef[0]), ok,
                   "the Jacobian must be whitened exactly like the fit: "
                   "errs=errs and %s" % ("no B when C is applied explicitly"
